@@ -292,7 +292,7 @@ func (t *Template) ParseFromTrustedTemplate(tmpl TrustedTemplate) (*Template, er
 func (t *Template) Clone() (*Template, error) {
 	t.nameSpace.mu.Lock()
 	defer t.nameSpace.mu.Unlock()
-	if t.escapeErr != nil {
+	if t.escapeErr != nil || t.nameSpace.escaped {
 		return nil, fmt.Errorf("html/template: cannot Clone %q after it has executed", t.Name())
 	}
 	textClone, err := t.text.Clone()
